@@ -606,6 +606,9 @@ func (e *Env) index(xv, iv TV, x Expr) (TV, error) {
 	switch u := xv.Typ.Underlying().(type) {
 	case *types.Slice:
 		h := e.vc.heap(e.st, elemHeapName(u.Elem()), arraySort(SInt, arraySort(SInt, e.vc.sortOf(u.Elem()))))
+		if xv.T.Sort != SSlice || !strings.HasPrefix(h.Sort, "(Array Int (Array ") {
+			return TV{}, fmt.Errorf("index of %s: value of slice type %s has sort %s (element heap %s of sort %s)", exprString(x), xv.Typ, xv.T.Sort, h.S, h.Sort)
+		}
 		e.vc.noteHeapType(elemHeapName(u.Elem()), u.Elem(), "elem")
 		return TV{sel(sel(h, sBase(xv.T)), add(sOff(xv.T), iv.T)), u.Elem()}, nil
 	case *types.Array:
